@@ -451,17 +451,14 @@ theorem selectNeighbors_all (lt : S → S → Bool) (cands : List (Hit S)) (M' :
 
 /-- nothing on a layer without in-edges to `x` is reached from elsewhere -/
 theorem reach_ne {s : State V} {layer : Nat} {curr x : Id} (hcurr : curr ≠ x)
-    (hno : ∀ j, x ∉ nbrsAt s layer j) : ∀ v, Reach (liveSuccAt s layer) curr v → v ≠ x := by
+    (hno : ∀ j, x ∉ nbrsAt s layer j) : ∀ v, Reach (nbrsAt s layer) curr v → v ≠ x := by
   intro v hv
   induction hv with
   | refl => exact hcurr
   | step _ hw _ =>
     intro hh
     subst hh
-    simp only [liveSuccAt] at hw
-    split at hw
-    · cases hw
-    · exact hno _ (List.mem_of_mem_filter hw)
+    exact hno _ hw
 
 /-- the layer loop never changes the vertex set, vectors, levels or scalars -/
 theorem insertLayers_shape (x : Id) (q : V) :
@@ -615,31 +612,24 @@ theorem insertLayers_inv (t0 : State V) (x : Id) (q : V) (hpre : Pre t0 x) :
             have hl0 := hJ.l0a (by simp)
             have hM2 : M' = t0.M * 2 := by rw [← hM']; simp [hJ.shape.M]
             -- the candidates are exactly the old live vertices
-            have hRold : ∀ v, RL t 0 curr v → Live t0 v ∧ v ≠ x := by
+            have hRold : ∀ v, RL t 0 curr v → t0.nodes.contains v = true ∧ v ≠ x := by
               intro v hv
               refine ⟨?_, reach_ne hJ.curr_ok.2 hnoin v hv⟩
               induction hv with
-              | refl => exact hJ.curr_ok.1
-              | step _ hw ihv =>
-                simp only [liveSuccAt] at hw
-                split at hw
-                · cases hw
-                · simp only [List.mem_filter] at hw
-                  refine (hJ.shape.live _).1 ⟨hJ.resolves _ _ _ hw.1, by simpa using hw.2⟩
+              | refl => exact hJ.curr_ok.1.1
+              | step _ hw _ => rw [← hJ.shape.contains]; exact hJ.resolves _ _ _ hw
             have holdR : ∀ v, Live t0 v → v ≠ x → RL t 0 curr v := by
               intro v hv hvx
               by_cases hvc : curr = v
               · subst hvc; exact Reach.refl
               · refine Reach.step Reach.refl ?_
-                simp only [liveSuccAt, hcurrT.2, Bool.false_eq_true, if_false, List.mem_filter]
                 rw [hl0]
-                exact ⟨hpre.comp curr v hJ.curr_ok.1 hJ.curr_ok.2 hv hvx hvc,
-                  by simp [hJ.shape.isDeleted, hv.2]⟩
+                exact hpre.comp curr v hJ.curr_ok.1 hJ.curr_ok.2 hv hvx hvc
             -- cover for completeness: the old live ids
-            have hcov : ∀ v, RL t 0 curr v → v ∈ (liveIds t0).erase x := by
-              intro v hv
+            have hcov : ∀ v, RL t 0 curr v → isDeleted t v = false → v ∈ (liveIds t0).erase x := by
+              intro v hv hvd
               obtain ⟨h1, h2⟩ := hRold v hv
-              exact (List.mem_erase_of_ne h2).2 (mem_liveIds.2 h1)
+              exact (List.mem_erase_of_ne h2).2 (mem_liveIds.2 ⟨h1, by rw [← hJ.shape.isDeleted]; exact hvd⟩)
             have hxl : x ∈ liveIds t0 := mem_liveIds.2 ⟨hpre.x_res, hpre.x_live⟩
             have hlen : ((liveIds t0).erase x).length ≤ t.efC := by
               rw [List.length_erase_of_mem hxl, hJ.shape.efC]
@@ -647,7 +637,7 @@ theorem insertLayers_inv (t0 : State V) (x : Id) (q : V) (hpre : Pre t0 x) :
                 simp only [liveIds, IdMap.count]; exact List.length_filter_le _ _
               have := hpre.efOK
               omega
-            have hall := searchLayer_complete m t q t.efC 0 curr _ hcov hlen hcurrT.2 cands hsl
+            have hall := searchLayer_complete m t q t.efC 0 curr _ hcov hlen cands hsl
             -- |cands| ≤ 2M, so every candidate is selected
             have hcl : cands.length + 1 ≤ t0.nodes.count := by
               have := old_card t0 x hpre.x_res (cands.map (·.id)) hs2 (by
@@ -680,7 +670,7 @@ theorem insertLayers_inv (t0 : State V) (x : Id) (q : V) (hpre : Pre t0 x) :
               intro v
               constructor
               · intro hv; exact ⟨(hnok v hv).2, (hnok v hv).1⟩
-              · rintro ⟨h1, h2⟩; exact hall v (holdR v h1 h2)
+              · rintro ⟨h1, h2⟩; exact hall v (holdR v h1 h2) (by rw [hJ.shape.isDeleted]; exact h1.2)
             refine ⟨?_, ?_, ?_, ?_⟩
             · rw [e1, hJ.x_empty 0 (by simp)]; simpa using hnnd
             · intro v
